@@ -79,8 +79,11 @@ def retryLoop (cfg : Cfg) : List Result → St → Nat → String
 
 def laneRetry : List String → String
   | [m, ks] =>
-    match m.toNat?, (ks.splitOn ",").mapM parseResult with
-    | some mr, some rs => retryLoop { stack := .h1, maxRetries := mr } rs {} 0
+    -- a negative MaxRetries means "retry without limit": on a finite script that is any limit
+    -- beyond the script's length
+    match m.toInt?, (ks.splitOn ",").mapM parseResult with
+    | some mr, some rs =>
+      retryLoop { stack := .h1, maxRetries := if mr < 0 then rs.length + 1 else mr.toNat } rs {} 0
     | _, _ => "bad-op"
   | _ => "bad-op"
 
